@@ -1,7 +1,7 @@
 #!/bin/bash
 # usage: try_seed.sh <patch.diff> [props...]  -- applies a seeded change to /repo, runs the checks, restores /repo
 patch=$1; shift
-props=${@:-C01 C02 C03 C04 C05 C06 C07 C08 C09 C10 C11 C12 C13 C14 C15 C16 C17 C18 C20}
+props=${@:-C01 C02 C03 C04 C05 C06 C07 C08 C09 C10 C11 C12 C13 C14 C15 C16 C17 C18 C19 C20}
 cd /repo || exit 2
 if [ -n "$(git status --short)" ]; then echo "/repo not clean"; exit 2; fi
 git apply "$patch" || { echo "patch does not apply"; exit 2; }
